@@ -887,6 +887,94 @@ class Case:
                     racy=any(st[0] == 'scan_racy' for st in sched),
                     live=[[ref, j] for ref, j in wk.items()])
 
+    def run_parts_closed(self, spec):
+        """the crash-free closed system for MULTI-PART jobs of coq/Model/PoolParts.v: the client makes
+        the calls spec['calls'] ([kind, n, chunksize]: apply / map / imap / imapu); feed = one pass of
+        the REAL task handler over everything queued (the parts go to the harness's pipe, imap
+        lengths are announced); workers take parts in pipe order and write ACK then READY (a
+        failing part: spec['bad'] = [[job, index], ...]); recv = the real result handler; next =
+        the consumer calls next() on an iterator whenever it would not block, until StopIteration.
+        Returns a dict (sched, events, obs, maximal, nexts)."""
+        import random
+        rng = random.Random(spec['seed'])
+        p = self.pool
+        todo = list(spec['calls'])
+        bad = set(tuple(b) for b in spec.get('bad', ()))
+        queued = []                              # (job, number of parts) of the sequences not written yet
+        inq, outq = [], []
+        wk = [None] * len(p._pool)
+        iters = {}                               # job -> stopped?
+        nexts = []
+        sched, evs, out = [], [], []
+        limit = spec.get('stop_after', 600)
+        maximal = False
+        while True:
+            en = []
+            if todo and not (todo[0][0] == 'apply' and p.putlocks and p._putlock is not None and p._putlock._value == 0):
+                en.append(['submit'])
+            if queued:
+                en.append(['feed'])
+            for i, w in enumerate(wk):
+                if w is None and inq:
+                    en.append(['take', i])
+                if w is not None:
+                    en.append(['finish', i])
+            if outq:
+                en.append(['recv'])
+            for j, stopped in iters.items():
+                if not stopped:
+                    it = self.jobs[j]
+                    if len(it._items) or (it._length is not None and it._index == it._length):
+                        en.append(['next', j])
+            if not en or len(sched) >= limit:
+                maximal = not en and all(iters.values())
+                break
+            st = rng.choice(en)
+            sched.append(st)
+            ev = None
+            if st[0] == 'submit':
+                c = todo.pop(0)
+                jn = len(self.jobs)
+                if c[0] == 'apply':
+                    ev = ['apply', None, None, None, None]
+                    inq.append([jn, None])
+                elif c[0] == 'map':
+                    ev = ['map', c[1], c[2]]
+                    n, cs = c[1], (0 if c[1] == 0 else c[2])
+                    queued.append([jn, 0 if cs <= 0 else (n + cs - 1) // cs])
+                else:
+                    ev = [c[0], c[1]]
+                    queued.append([jn, c[1]])
+                    iters[jn] = False
+            elif st[0] == 'feed':
+                ev = ['feed']
+                for jn, k in queued:
+                    inq.extend([jn, i] for i in range(k))
+                queued = []
+            elif st[0] == 'take':
+                a = inq.pop(0)
+                wk[st[1]] = a
+                outq.append(['ack', a[0], a[1], p._pool[st[1]].ref])
+            elif st[0] == 'finish':
+                a = wk[st[1]]
+                wk[st[1]] = None
+                outq.append(['ready', a[0], a[1], (a[0], a[1]) not in bad, a[0] * 100 + (a[1] or 0)])
+            elif st[0] == 'recv':
+                ev = outq.pop(0)
+            else:
+                ev = ['next', st[1]]
+            if ev is not None:
+                evs.append(ev)
+                out.extend(self.run([ev]))
+                if out[-1]['exc'] == 'Hang':
+                    break
+                if ev[0] == 'next':
+                    r = out[-1]['ret']
+                    nexts.append([st[1], r])
+                    if r and r[0] == 'stop':
+                        iters[st[1]] = True
+        return dict(sched=sched, events=evs, obs=out, maximal=maximal, nexts=nexts)
+
     def run(self, events):
         out = []
         events = list(events)
@@ -959,6 +1047,8 @@ def main():
             res.append(case.run_crash_closed(c['crash']))
         elif 'limit' in c:
             res.append(case.run_limit_closed(c['limit']))
+        elif 'parts' in c:
+            res.append(case.run_parts_closed(c['parts']))
         elif 'gen' in c:
             evs, obs = case.run_gen(c['gen'])
             res.append(dict(events=evs, obs=obs))
